@@ -736,6 +736,13 @@ def run(repo, rep, tier):
                             'for-loops over finite collections are expected)')
 
     _r2_shapes(repo, rep, ops, conn)
+    _r4b_type_guard(repo, rep)
+    r7 = rep.rule('C02.R7', 'error messages on the reply path can be built '
+                  '(constant, well-formed format templates)')
+    from ..guards import run_format_rule
+    run_format_rule(repo, rep, r7, lambda f: f.file in (
+        TP, TT, OPS, 'pywbem/_cim_http.py', 'pywbem/_exceptions.py',
+        'pywbem/_utils.py'))
 
 
 def _r2_shapes(repo, rep, ops, conn):
@@ -834,3 +841,65 @@ def _r2_shapes(repo, rep, ops, conn):
     if nops < 20:
         raise AnalysisError('only %d result-using operations interpreted'
                             % nops)
+
+
+def _r4b_type_guard(repo, rep):
+    """C02.R4b: the regular expression that admits a TYPE attribute value to
+    unpack_numeric() accepts only names that type_from_name() knows (its
+    language is finite and is enumerated, including the variant with a
+    trailing newline that a `$` anchor lets through)."""
+    from .. import rx
+    from ..guards import regex_const
+    r = rep.rule('C02.R4b', 'the numeric-type guard admits only names of the '
+                 'type table')
+    tp = repo.cls(TP, 'TupleParser')
+    usv = tp.methods.get('unpack_single_value')
+    if usv is None:
+        raise AnalysisError('TupleParser.unpack_single_value vanished')
+    r.functions.add(usv.fq)
+    typ = repo.module('pywbem/_cim_types.py')
+    table = typ.consts.get('_TYPE_FROM_NAME')
+    keys = None
+    if isinstance(table, ast.Dict):
+        keys = {const_str(k) for k in table.keys}
+    if not keys or None in keys:
+        raise AnalysisError('_TYPE_FROM_NAME table not found')
+    guards_ = []
+    for n in walk_no_nested(usv.node):
+        if isinstance(n, ast.Call) and isinstance(n.func, ast.Attribute) and \
+                n.func.attr in ('match', 'fullmatch', 'search') and n.args:
+            rc = regex_const(repo, usv, n.func.value)
+            if rc is not None:
+                guards_.append((n, rc))
+    if not guards_:
+        raise AnalysisError('unpack_single_value: numeric type guard not '
+                            'found')
+    for call, (pat, flags) in guards_:
+        r.sites += 1
+        p = rx.parse(pat, flags)
+        lang = rx.samples(p, limit=200)
+        if len(lang) >= 200:
+            r.undecided.append('%s: language too large' % pat)
+            continue
+        anchored = pat.startswith('^') or call.func.attr != 'search'
+        extra = []
+        if call.func.attr != 'fullmatch':
+            if not rx.end_anchored(p):
+                extra = [x + 'x' for x in lang[:3]]
+            elif rx.end_admits_newline(p):
+                extra = [x + '\n' for x in lang]
+        bad = [x for x in lang + extra if x not in keys]
+        ok = anchored and not bad
+        r.ob(ok, norm(call.func.value),
+             {'guard': norm(call, 60), 'pattern': pat,
+              'language': sorted(lang)[:12],
+              'also_admitted': [repr(x) for x in extra[:3]]})
+        if not ok:
+            rep.finding(r, usv.qualname, norm(call.func.value),
+                        'guard-wider-than-table', TP, call.lineno,
+                        'the pattern %r admits %s to unpack_numeric(), but '
+                        'type_from_name() knows no such type and raises '
+                        'ValueError outside any handler (e.g. TYPE="uint8'
+                        '&#10;": `$` also matches before a trailing '
+                        'newline)' % (pat, ', '.join(repr(x)
+                                                     for x in bad[:3])))
